@@ -420,6 +420,7 @@ def unkIssues (env : Env) (shape : List Field) (mode : Mode) (c : Option Mid) : 
     (if isKnown shape k then [] else
       match mode, c with
       | .passthrough, some cm => (errs env cm x).map (prepend k.seg)
+      | .strip, some cm => (errs env cm x).map (prepend k.seg)      -- /repo 507cd5d
       | _, _ => []) ++ unkIssues env shape mode c es
 
 theorem objectUnknown_fst (env : Env) (shape : List Field) (mode : Mode) (c : Option Mid) (es : List (V × V)) :
@@ -436,7 +437,7 @@ theorem objectUnknown_fst (env : Env) (shape : List Field) (mode : Mode) (c : Op
     · simp [hk]
     · simp only [hk, Bool.false_eq_true, ↓reduceIte]
       cases mode <;> cases c <;> simp
-      next cm => unfold errs; cases env cm x <;> simp
+      all_goals (unfold errs; rename_i cm; cases env cm x <;> simp)
 
 theorem objectUnknown_from (env : Env) (v : V) (shape : List Field) (mode : Mode) (c : Option Mid)
     (es : List (V × V)) (hx : EntriesOf v es) :
@@ -453,6 +454,9 @@ theorem objectUnknown_from (env : Env) (v : V) (shape : List Field) (mode : Mode
     · split at h
       · cases h
       · split at h
+        · next cm =>
+          obtain ⟨d, hd, rfl⟩ := List.mem_map.1 h
+          exact .child k.seg x cm d (hx (k, x) (List.mem_cons_self ..)) hd rfl
         · next cm =>
           obtain ⟨d, hd, rfl⟩ := List.mem_map.1 h
           exact .child k.seg x cm d (hx (k, x) (List.mem_cons_self ..)) hd rfl
